@@ -84,7 +84,11 @@ enum Verdict {
 }
 
 fn judge(set: &dyn DynSet, c: &C16Case) -> Verdict {
-    match catch(|| set.c16_case(c)) {
+    let r = {
+        let _watch = watch::enter(&format!("lifecycle {}", c.label(set.info().name)), String::new);
+        catch(|| set.c16_case(c))
+    };
+    match r {
         Err(p) => Verdict::Harness(format!("C16: panic while driving lifecycle {}: {p}", c.label(set.info().name))),
         Ok(Err(e)) if e.starts_with("unavailable") => Verdict::Unavailable,
         Ok(Err(e)) => Verdict::Harness(format!("C16: {e} ({})", c.label(set.info().name))),
